@@ -458,7 +458,7 @@ async fn run_scenario(sc: Value, sock: PathBuf, meaning: Map<String, Value>) -> 
     let tcp = sc["transport"].as_str() == Some("tcp");
     let mut tcp_port = 0u16;
     if tcp {
-        tcp_port = std::net::TcpListener::bind("127.0.0.1:0").and_then(|l| l.local_addr()).map(|a| a.port()).unwrap_or(0);
+        tcp_port = crate::util::private_port();
         cfg.tcp_endpoint = Some(worterbuch::Endpoint { tls: false, bind_addr: [127, 0, 0, 1].into(), port: tcp_port });
         cfg.tcp_disabled = false;
     }
